@@ -210,13 +210,14 @@ func (g *GRE) SerializeTo(b gopacket.SerializeBuffer, opts gopacket.SerializeOpt
 		}
 		// Terminate routing field with a "NULL" SRE.
 		binary.BigEndian.PutUint32(buf[offset:offset+4], 0)
+		offset += 4
 	}
 	if g.AckPresent {
 		binary.BigEndian.PutUint32(buf[offset:offset+4], g.Ack)
 		offset += 4
 	}
-	if g.ChecksumPresent {
-		if opts.ComputeChecksums {
+	if g.ChecksumPresent || g.RoutingPresent {
+		if g.ChecksumPresent && opts.ComputeChecksums {
 			csum := gopacket.ComputeChecksum(b.Bytes(), 0)
 			g.Checksum = gopacket.FoldChecksum(csum)
 		}
